@@ -124,7 +124,7 @@ fn read_doc(path: &str) -> serde_json::Value {
         eprintln!("harness error: cannot read {path}: {e}");
         std::process::exit(2)
     });
-    serde_json::from_str(&txt).unwrap_or_else(|e| {
+    runner::json_parse(&txt).unwrap_or_else(|e| {
         eprintln!("harness error: {path} is not JSON: {e}");
         std::process::exit(2)
     })
@@ -183,7 +183,7 @@ fn child_main(args: &[String]) -> i32 {
             let id = args[1].clone();
             let txt = std::fs::read_to_string(&args[2]).unwrap_or_default();
             with_scenario!(id.as_str(), S => {
-                match serde_json::from_str::<<S as Scenario>::Trace>(&txt) {
+                match runner::json_parse::<<S as Scenario>::Trace>(&txt) {
                     Ok(t) => {
                         supervisor::set_run(0);
                         let o = runner::exec_one::<S>(&t, false);
